@@ -6,6 +6,8 @@
 (*  every event carries "raised": exception type name / "DoesNotTerminate", "" when the call returned *)
 (*  {"ev":"chunk","tid","bp","jobs":[[contig,s,e,..]..],"chunks":[[[contig,s,e,..]..]..]}         *)
 (*  {"ev":"trim","tid","bl","S","E","out"}   {"ev":"merge","tid","bl","out"}   (helpers: notes only) *)
+(*  {"ev":"wl","tid","allowed":[contig..],"seen":[contig..]}  contig whitelist of blacklisted_binning_contigs (note only) *)
+(*  an event with a field "soft":"<reason>" is an observed-only input variant: a failing verdict is a @@NOTE soft_... *)
 (* A tile observation that satisfies the property but differs from the design operator TileOut    *)
 (* is reported as @@NOTE divergence_from_design (informational).                                   *)
 EXTENDS TraceLib, TilingOps
@@ -28,7 +30,7 @@ TileV(e) ==
 
 TileNote(line, e) ==
     IF ~TilePre(e) THEN Note(line, e.tid, "outside_precondition")
-    ELSE IF e.raised = "" /\ TileShapeOk(e) /\ TileV(e) = "ok"
+    ELSE IF ~Has(e, "soft") /\ e.raised = "" /\ TileShapeOk(e) /\ TileV(e) = "ok"
             /\ Norm(e.out) # TileOut("design", e.S, e.E, e.B, e.F, Pairs(e.bl))
          THEN Note(line, e.tid, "divergence_from_design")
     ELSE TRUE
@@ -50,6 +52,7 @@ ChunkV(e) == IF e.raised # "" THEN "Inv_C17_Raised"
              ELSE IF P_Chunk(e.jobs, e.chunks) THEN "ok" ELSE "Inv_C17_Chunk"
 
 HelperNote(line, e) ==
+    IF e.ev = "wl" THEN (IF SeqSet(e.seen) \subseteq SeqSet(e.allowed) THEN TRUE ELSE Note(line, e.tid, "contig_outside_whitelist_tiled")) ELSE
     IF e.ev \in {"trim", "merge"} /\ e.raised # "" THEN Note(line, e.tid, "helper_raised")
     ELSE IF e.ev \in {"trim", "merge"} /\ ~AllLen(e.out, 2) THEN Note(line, e.tid, "helper_output_malformed")
     ELSE IF e.ev = "trim" /\ Pairs(e.out) # Trim("design", Pairs(e.bl), e.S, e.E)
@@ -61,12 +64,14 @@ HelperNote(line, e) ==
 Verdict(e) == CASE e.ev = "tile"  -> TileV(e)
                 [] e.ev = "fill"  -> FillV(e)
                 [] e.ev = "chunk" -> ChunkV(e)
-                [] e.ev \in {"trim", "merge"} -> "ok"
+                [] e.ev \in {"trim", "merge", "wl"} -> "ok"
                 [] OTHER -> "unknown_event"
 
 TInit == l = 1
 TNext == /\ l <= Len(Log)
-         /\ Judge(l, Verdict(Log[l]))
+         /\ (IF Has(Log[l], "soft") /\ Verdict(Log[l]) # "ok"       \* observed-only input variants (see docs): never an alarm
+             THEN Note(l, Log[l].tid, "soft_" \o Log[l].soft \o "_" \o Verdict(Log[l]))
+             ELSE Judge(l, Verdict(Log[l])))
          /\ (IF Log[l].ev = "tile" THEN TileNote(l, Log[l]) ELSE HelperNote(l, Log[l]))
          /\ l' = l + 1
 TAccepted == TLCGet("stats").diameter - 1 = Len(Log)
